@@ -7,7 +7,10 @@
 (* One step = one clock cycle on the master side.                          *)
 (*   iv = <<req, adr, we, sel, data, cti, bte>>                            *)
 (*        req: 0 idle, 1 cyc & stb, 2 cyc & ~stb (master wait state, only   *)
-(*        with c.mwait > 0);  sel, data: bit masks over the L byte          *)
+(*        with c.mwait > 0), 3 ~cyc & stb (only with c.junk = 1: another    *)
+(*        slave of a shared bus is addressed - wishbone.Decoder gates cyc   *)
+(*        only, stb/adr/we/sel/dat_w/cti/bte reach every slave);            *)
+(*        sel, data: bit masks over the L byte                              *)
 (*        lanes (a byte carries one of two values);  cti/bte as on the bus  *)
 (*   o  = <<ack, err, lane_0 .. lane_(L-1)>>                                *)
 (*        followed, for adapters whose slave side is observed (c.sside=1),  *)
@@ -25,7 +28,12 @@
 (*     a wait state sel and dat_w are 0 and adr/we/cti/bte either show the  *)
 (*     coming beat or are all 0 (both variants are explored).  A presented  *)
 (*     beat is held unchanged (adr, we, sel, dat_w, cti, bte) until it is   *)
-(*     acknowledged.                                                        *)
+(*     acknowledged.  With c.junk = 1 the lines of a cycle without a        *)
+(*     request are not kept quiet: wait states and cyc-ahead-of-stb cycles   *)
+(*     also carry a full-width write of ones to any word (classic tags or    *)
+(*     the tags of an incrementing burst), and between cycles the same       *)
+(*     patterns appear with stb but without cyc.  A slave acts on cyc AND    *)
+(*     stb only (B4 rule 3.25 / 3.35).                                       *)
 (*  R2 cti: 000 classic cycle; 001 constant address burst; 010 incrementing *)
 (*     burst; 111 end of burst = the LAST beat of every burst.  A single    *)
 (*     access may carry 111 (B4 permits it; such a transfer behaves like a  *)
@@ -122,10 +130,20 @@ WaitBeats(c) ==          \* master wait state before beat cur.k (k >= 1) of the 
          <<2, 0, 0, 0, 0, 0, 0>> }
 PreWaits(c) ==           \* cyc ahead of the first stb, the tags of an incrementing burst already on the bus
   IF MWait(c) = 0 THEN {} ELSE { <<2, 0, 0, 0, 0, 2, b>> : b \in SeqSet(c.btes) }
+JunkOn(c) == IF "junk" \in DOMAIN c THEN c.junk ELSE 0
+AllSel(c) == 2^c.lanes - 1
+JunkTags(c) == {<<0, 0>>} \cup { <<2, b>> : b \in SeqSet(c.btes) }
+JunkWaits(c) ==          \* wait state whose lines carry a classic full-width write of ones to any word
+  IF JunkOn(c) = 0 \/ cur.wt >= MWait(c) THEN {}
+  ELSE { <<2, a, 1, AllSel(c), AllSel(c), 0, 0>> : a \in 0..(c.words - 1) }
+JunkIdle(c) ==           \* no request: cyc ahead of stb / another slave addressed, write-shaped lines, classic or burst tags
+  IF JunkOn(c) = 0 THEN {}
+  ELSE { <<q, a, 1, AllSel(c), AllSel(c), t[1], t[2]>> : q \in (IF MWait(c) = 0 THEN {3} ELSE {2, 3}),
+                                                         a \in 0..(c.words - 1), t \in JunkTags(c) }
 Inputs(c) ==
   CASE cur.st = 1 -> {cur.iv}                                                   \* R1: held until acknowledged
-    [] cur.st = 2 -> NextBeats(c) \cup WaitBeats(c)                             \* R1: no gap / bounded wait states
-    [] OTHER      -> {<<0, 0, 0, 0, 0, 0, 0>>} \cup Starts(c) \cup PreWaits(c)  \* any gap between cycles
+    [] cur.st = 2 -> NextBeats(c) \cup WaitBeats(c) \cup JunkWaits(c)           \* R1: no gap / bounded wait states
+    [] OTHER      -> {<<0, 0, 0, 0, 0, 0, 0>>} \cup Starts(c) \cup PreWaits(c) \cup JunkIdle(c)  \* any gap between cycles
 
 ObsInit == [okread |-> TRUE, okseq |-> TRUE, okack |-> TRUE, okerr |-> TRUE, oksl |-> TRUE,
             pending |-> FALSE, endb |-> FALSE]
@@ -202,6 +220,8 @@ CStep(c, iv, o) ==
   /\ WitIf(done /\ m.kind = 2 /\ m.bte # 0 /\ m.k >= WrapLen(m.bte), c, 11, "wrap burst longer than the wrap size")
   /\ WitIf(done /\ cur.st \in {1, 2} /\ cur.wt >= 1 /\ m.kind = 2, c, 12, "beat of an incrementing burst after a master wait state")
   /\ WitIf(iv[1] = 2 /\ cur.st = 0, c, 13, "cyc ahead of the first stb")
+  /\ WitIf(iv[1] = 3 /\ cti = 2, c, 14, "burst beat of another slave on the bus (stb without cyc)")
+  /\ WitIf(iv[1] = 2 /\ cur.st = 2 /\ we = 1 /\ sel # 0, c, 15, "wait state with write-shaped lines")
 
 ReadReturnsLastWrite  == obs.okread   \* classic / single / constant / first beat: last enabled write or initial content, per byte
 BurstAddressSequence  == obs.okseq    \* beat k >= 1 of an incrementing burst returns the bytes of the word R5 defines
